@@ -29,7 +29,17 @@ def roles(F):
     fs = a["variants"][0]["fields"]
     wt = word_types(F)
     words = [f["name"] for f in fs if f["ty"] in wt]
-    cells = [f["name"] for f in fs if re.match(r"^\[core::cell::UnsafeCell<core::option::Option<T>>; .*\]$", f["ty"])]
+    CELLS = r"^\[core::cell::UnsafeCell<core::option::Option<T>>; .*\]$"
+    cells = [f["name"] for f in fs if re.match(CELLS, f["ty"])]
+    if not cells:
+        # the cell array may be wrapped in a private one-field struct of the module (`Cells<T>([UnsafeCell<Option<T>>; N])`)
+        adts = {a["path"]: a for c, a in F.crate_items("adts")}
+        for f in fs:
+            base = re.sub(r"<.*$", "", f["ty"])
+            a2 = adts.get(base)
+            if a2 and base.startswith("signal_hook::low_level::channel::") and len(a2["variants"]) == 1 and len(a2["variants"][0]["fields"]) == 1 \
+                    and re.match(CELLS, a2["variants"][0]["fields"][0]["ty"]):
+                cells.append(f["name"])
     if len(words) != 2 or len(cells) != 1:
         raise AnchorLost("channel: two queue words (AtomicU16 or a wrapper of one) and one cell array expected, found %s / %s" % (words, cells))
     return words, cells[0]
@@ -41,7 +51,7 @@ def method(F, name, T=PAYLOAD):
 
 def is_primitive(F, c):
     """a workspace function of the channel module whose first parameter is a reference to a queue word"""
-    if not (c.local and c.body is not None and c.kind == "item" and c.name.startswith(("signal_hook::low_level::channel::", "<signal_hook::low_level::channel::"))):
+    if not (c.local and c.body is not None and c.kind == "item" and c.crate == "signal_hook" and "signal_hook::low_level::channel::" in c.name):
         return False
     if c.body["argc"] < 1:
         return False
@@ -106,8 +116,13 @@ def cell_accesses(F, m, cells):
             x = e
             while x[0] in ("ref", "deref"):
                 x = deep_strip(x[1])
-            if x[0] == "index" and deep_strip(x[1])[0] == "field" and deep_strip(x[1])[2] == cells:
-                out.append((bb, t, x[2]))
+            if x[0] == "index":
+                # the indexed array is the cell field of the channel, possibly behind the single field of a private wrapper
+                b_ = deep_strip(x[1]); hops = 0
+                while b_[0] in ("field", "ref", "deref") and hops < 4:
+                    if b_[0] == "field" and b_[2] == cells and CH in (b_[4] or ""):
+                        out.append((bb, t, x[2])); break
+                    b_ = deep_strip(b_[1]); hops += 1
     return out
 
 
